@@ -47,9 +47,12 @@ def judge(case):
     def v(sym, detail): viol.append({"kind": sym, "detail": detail})
     x = values.small_int((N, C, H, W), salt=3)
     L = lattice.conv_out(H, kh, sh, ph, dh) * lattice.conv_out(W, kw, sw, pw, dw)
+    held = []      # (name, result array, byte snapshot): a result must not change while later calls run
     def attempt(name, f):
         try:
-            return f()
+            r = f()
+            if isinstance(r, np.ndarray): held.append((name, r, r.tobytes()))
+            return r
         except harness.HarnessError: raise
         except Exception as e:
             v(f"{name}:raised", f"{type(e).__name__}: {str(e)[:80]} (kernel_size spelled {K!r})"); return None
@@ -129,6 +132,9 @@ def judge(case):
         exp = np.broadcast_to(cover_count(H, W, k, s, p, d), (N, C, H, W))
         if r.shape != exp.shape or not np.array_equal(r, exp):
             v(f"{cname}:fold-unfold-multiplicity", f"fold(unfold(1)) != number of windows covering each pixel")
+    for name, r, snap in held:
+        if r.tobytes() != snap:
+            v(f"{name}:result-modified-by-later-call", "an array returned earlier changed while later calls of the same geometry ran (results share storage)"); break
     return {"nontrivial": L >= 1 and (H * W > 1 or kh * kw > 1), "outcome": "ok", "violations": viol}
 
 def all_cases(tier):
